@@ -22,6 +22,10 @@ Clause(e) ==
          IF e.ok /\ Len(e.out) = Len(e.in.items)
                /\ \A i \in 1..Len(e.out) : LawChord(Meaning(e.in.items[i].sh), e.in.items[i].root, e.out[i])
          THEN "ok" ELSE "list-elementwise"
+    [] e.op = "list_nc" ->      \* [X, 'NC', Y, 'N.C.'] maps element-wise: the no-chord markers give empty chords in place
+         IF e.ok /\ Len(e.out) = 4 /\ e.out[2] = <<>> /\ e.out[4] = <<>>
+               /\ LawChord(Meaning(e.in.items[1].sh), e.in.items[1].root, e.out[1]) /\ LawChord(Meaning(e.in.items[2].sh), e.in.items[2].root, e.out[3])
+         THEN "ok" ELSE "list-elementwise"
     [] e.op = "malformed" -> IF Rejected(e) THEN "ok" ELSE "reject-unknown-shorthand"
     [] e.op = "badroot" -> IF Rejected(e) THEN "ok" ELSE "reject-bad-root"
     [] e.op = "tables" ->       \* constructible shorthands = shorthands with a meaning
